@@ -205,9 +205,15 @@ def _cycle_check(ctx: Ctx, c: Collector) -> None:
                         v, srcx = el[3][0][1], T.strip(el[3][0][2])
                         if srcx == ("attr", delay, "tiers") and el[1] == T.canon_cmp("==", v, T.const(0)):
                             zero_ok = True
+                        elif srcx == ("attr", delay, "tiers"):
+                            pr.append(f"the per-tier test is {T.show(el[1])} instead of tier == 0")
+                            zero_ok = None
                         elif srcx[0] == "idx" and srcx[1] == ("attr", delay, "tiers"):
                             pr.append(f"only {T.show(srcx)} is tested for zero: a cycle resolved by a weak connection (non-zero sub-tier) is rejected, or an unresolved one accepted")
                             zero_ok = None
+                elif x[0] == "not" and x[1][0] == "agg" and T.contains(x, ("attr", delay, "tiers")):
+                    pr.append("the zero test is negated: cycles with a resolving connection are rejected and unresolved ones accepted")
+                    zero_ok = None
                 elif x[0] == "agg" and x[1] == "any" and T.contains(x, ("attr", delay, "tiers")):
                     pr.append("the zero test uses any() over the tiers: a cycle with a resolving connection is rejected")
                     zero_ok = None
@@ -303,6 +309,9 @@ def _interval(ctx: Ctx, c: Collector) -> None:
     loc = fi.loc
     rets = s.returns
     pr: List[str] = []
+    if not rets:
+        c.bad("interval", INTERVAL, "pre_length/cutoff/tiers, shift in tier 0, weak in the shared group's tier, weak needs a shared group", "no interval is returned", loc)
+        return
     if len(rets) != 1 or rets[0].term[0] != "call" or rets[0].term[1] != T.glob("mosaik.tiered_time.TieredInterval"):
         c.unk("interval", INTERVAL, "shape", "return value not recognised", loc)
         return
@@ -329,6 +338,11 @@ def _interval(ctx: Ctx, c: Collector) -> None:
             pr.append("weak is placed in tier " + (T.show(others[0]) if others else "<none>") + " instead of the shared group's tier (cutoff - 1)")
         if len(sts) > 2:
             pr.append("additional tiers are written")
+    # defaults: connect_interval(g1, g2) is the zero interval (used for successors / async requests)
+    import ast as _ast
+    dfl = [(_ast.literal_eval(d) if isinstance(d, _ast.Constant) else None) for d in fi.node.args.defaults]
+    if dfl[-2:] != [0, 0]:
+        pr.append(f"the defaults of time_shifted / weak are {dfl[-2:]} instead of 0: connect_interval(g1, g2) is no longer the zero interval between two groups")
     # weak outside a group is rejected before the interval is built
     raises = [e for e in s.of_kind("raise") if e.term[0] == "call" and e.term[1] == T.glob(SCENERR)]
     okr = False
@@ -360,6 +374,14 @@ def _interval(ctx: Ctx, c: Collector) -> None:
         climbs = [e for e in gs.of_kind("bind") if e.term[1] == destp and e.term[2] == ("attr", destp, "parent")]
         if not climbs:
             pr.append("the destination side never climbs to its parent")
+        else:
+            if ("attr", destp, "parent") not in guard_terms(climbs[0].guards):
+                pr.append("the destination climbs to its parent although it has none / stops although it has one (guard of the climb is not `dest.parent`)")
+            if not any(i[1] == ("while",) and T.strip(i[2]) == T.const(True) for i in climbs[0].iters):
+                pr.append("the search for the common group is not repeated until it is found")
+        look = [e for e in gs.of_kind("call") if chain is not None and e.term == call(("attr", chain, "index"), destp)]
+        if look and not any(r == "body" for _, r in look[0].tries):
+            pr.append("a destination group that is not an ancestor of the source ends the search (ValueError not handled)")
     c.add("group_path", GROUP_PATH, "ascent = index of first common ancestor", VIOLATED if pr else DISCHARGED, "; ".join(pr), gfi.loc)
 
 
